@@ -22,20 +22,25 @@ CONSTANTS Subjects
 SigKinds     == {"sig", "legacySig", "sigAtCap"}
 (* "sigBlobGone": a signature pushed through PushSignature whose envelope blob has since vanished from the store: it is
    still a referrer of its artifact (listed), and fetching it fails as a whole *)
+(* "sigManifestGone": the signature MANIFEST itself has vanished from the store that still knows it as a referrer: the listing
+   cannot be completed and is refused as a whole (it is not silently shortened) *)
 GoneKinds    == {"sigBlobGone"}
+LostKinds    == {"sigManifestGone"}
 HostileKinds == {"hostile0", "hostile2", "hostileBigBlob", "hostileBigManifest", "hostileBigLegacy"}
 Oversized    == {"hostileBigManifest", "hostileBigLegacy"}        \* manifests beyond the cap, in the image-manifest and in the legacy form
-ForeignKinds == {"foreignType", "legacyForeign", "subjDigest", "subjSize", "subjMT", "noSubject"}
-Kinds        == SigKinds \cup HostileKinds \cup ForeignKinds \cup GoneKinds
+(* "noSubjectLayerIsArtifact": a signature-typed manifest WITHOUT subject whose layer is the artifact's own descriptor (it
+   refers to the artifact, but not as its subject) *)
+ForeignKinds == {"foreignType", "legacyForeign", "subjDigest", "subjSize", "subjMT", "noSubject", "noSubjectLayerIsArtifact"}
+Kinds        == SigKinds \cup HostileKinds \cup ForeignKinds \cup GoneKinds \cup LostKinds
 
 (* a signature-typed referrer of exactly s is listed for s; nothing else ever is *)
 ListedFor(h, s) == {i \in 1..Len(h) : h[i].s = s /\ h[i].kind \in SigKinds \cup GoneKinds \cup (HostileKinds \ Oversized)}
-Poisoned(h, s) == \E i \in 1..Len(h) : h[i].s = s /\ h[i].kind \in Oversized    \* an oversized referrer: the listing is refused
+Poisoned(h, s) == \E i \in 1..Len(h) : h[i].s = s /\ h[i].kind \in Oversized \cup LostKinds    \* an oversized referrer: the listing is refused
 RECURSIVE SortedSeq(_)
 SortedSeq(S) == IF S = {} THEN <<>> ELSE LET m == CHOOSE x \in S : \A y \in S : x <= y IN <<m>> \o SortedSeq(S \ {m})
 ListOf(h, s) == IF Poisoned(h, s) THEN <<-1>> ELSE SortedSeq(ListedFor(h, s))
 
-FetchOf(h, i) == IF h[i].kind \in SigKinds THEN "ok" ELSE IF h[i].kind \in HostileKinds \cup GoneKinds THEN "refused" ELSE "n/a"
+FetchOf(h, i) == IF h[i].kind \in SigKinds THEN "ok" ELSE IF h[i].kind \in HostileKinds \cup GoneKinds \cup LostKinds THEN "refused" ELSE "n/a"
 
 Audit(h) == [lists |-> [s \in Subjects |-> ListOf(h, s)], fetch |-> [i \in 1..Len(h) |-> FetchOf(h, i)]]
 
